@@ -35,6 +35,7 @@ func (w *lifeWorld) builder(b string) *mocker.Builder {
 
 func (w *lifeWorld) Begin() {
 	theImage()
+	baseLogging()
 	w.b = map[string]*mocker.Builder{}
 	w.used = map[string]bool{}
 }
@@ -195,6 +196,14 @@ func (w *lifeWorld) Do(st Step) string {
 			}
 		case "Reset":
 			w.builder(b).Reset()
+		case "OpenDebug":
+			mocker.OpenDebug()
+		case "CloseDebug":
+			mocker.CloseDebug()
+		case "OpenTrace":
+			mocker.OpenTrace()
+		case "CloseTrace":
+			mocker.CloseTrace()
 		case "Call", "CallPh":
 			// performed in Observe (the result is the observable)
 		default:
@@ -327,6 +336,7 @@ func (w *lifeWorld) End() string {
 		healText(d.lo, im.pristine(d.lo, int(d.hi-d.lo)))
 	}
 	fn.RestoreOrigins()
+	baseLogging()
 	return res
 }
 
